@@ -188,6 +188,21 @@ def gen_site(rng, size=None, redirects=True, inline=True, offsite=True, deep=Fal
     return s
 
 
+def longest_chain(site):
+    """number of redirect hops of the longest redirect chain of the site"""
+    import posixpath
+    best = 0
+    for p in site.pages:
+        cur, hops, seen = p, 0, set()
+        while site.pages.get(cur, {}).get('kind') == 'redirect' and cur not in seen:
+            seen.add(cur)
+            u = urllib.parse.urlsplit(urllib.parse.urljoin('http://a.test/', site.pages[cur]['location']))
+            cur = posixpath.normpath(u.path) if u.path != '/' else '/'
+            hops += 1
+        best = max(best, hops)
+    return best
+
+
 def gen_options(rng, levelfree=False):
     o = _gen_options(rng, levelfree)
     if rng.random() < 0.2:
@@ -224,6 +239,8 @@ def option_argv(o):
         a += ['--reject-regex', o['reject_regex']]
     if o.get('tries'):
         a += ['--tries', str(o['tries'])]
+    if o.get('max_redirect'):
+        a += ['--max-redirect', str(o['max_redirect'])]
     if o.get('timestamping'):
         a.append('-N')
     if o.get('quota'):
@@ -248,6 +265,7 @@ class RefCrawl:
         self.site = site
         self.o = opts
         self.tries = opts.get('tries') or tries
+        max_redirects = opts.get('max_redirect') or max_redirects
         self.max_redirects = max_redirects
         self.start_hosts = start_hosts
 
@@ -378,12 +396,14 @@ class RefCrawl:
         states = {(start_url, 0, None)}
         fetched = set()
         yields = {}            # state -> children [(url, inline)]
+        hops = {}              # state -> request lines of its visit (first hop, redirect hops)
         while todo:
             st = todo.pop()
             url, level, inl = st
             reqs, _status, kids = self.visit(url, level, inl, 0)
             fetched.update(reqs)
             yields[st] = kids
+            hops[st] = reqs
             for c, inline in kids:
                 ci = ((inl or 0) + 1) if inline else None
                 nst = (c, self._cap(level + 1), ci)
@@ -394,6 +414,7 @@ class RefCrawl:
         for u, l, i in states:
             records.setdefault(u, set()).add((l, i))
         self._yields = yields
+        self._hops = hops
         return fetched, records
 
     def explain_missing(self, missing, rows, start_url):
@@ -437,6 +458,12 @@ class RefCrawl:
                             if u not in [k for k, _ in kids2]:
                                 why = dimension(p_url, rec, [(pl, pi)])
                                 break
+                if not why:
+                    # expected only as a redirect hop of a visit that did not happen for an explained reason
+                    for (p_url, _pl, _pi), reqs in self._hops.items():
+                        if u in reqs[1:] and out.get(p_url, 'plain') != 'plain':
+                            why = out[p_url]
+                            break
                 if why:
                     out[u] = why
                     changed = True
@@ -473,6 +500,7 @@ def trace_to_events(events, ids, ref, first_run=True):
     pending_none = False
     notes = []
     current_out = {}      # url -> record info at checkout
+    flushed_open = {}     # item url -> (index of its flush event in out, URLs inserted so far)
     while i < n:
         e = events[i]
         op = e['op']
@@ -517,9 +545,20 @@ def trace_to_events(events, ids, ref, first_run=True):
             if e.get('phase') == 'finish' and not e['batch']:
                 i += 1
                 continue          # ProcessTask's trailing finish() with an empty batch
-            batches[item] = [(b['url'], b.get('inline_level') is not None) for b in e['batch']]
-            out.append('f%d=%s' % (ids(item), enc([ids(u) for u in e['inserted']])))
+            this = [(b['url'], b.get('inline_level') is not None) for b in e['batch']]
+            if item in flushed_open:
+                # ItemSession stores a page's links in portions of 1000: one children flush in the model
+                k, inserted = flushed_open[item]
+                batches[item] = batches[item] + this
+                inserted = inserted + list(e['inserted'])
+                out[k] = 'f%d=%s' % (ids(item), enc([ids(u) for u in inserted]))
+                flushed_open[item] = (k, inserted)
+            else:
+                batches[item] = this
+                out.append('f%d=%s' % (ids(item), enc([ids(u) for u in e['inserted']])))
+                flushed_open[item] = (len(out) - 1, list(e['inserted']))
         elif op == 'check_in':
+            flushed_open.pop(e['url'], None)
             out.append('i%d,%s' % (ids(e['url']), STATUS.get(e['status'], '?')))
         i += 1
     # visit table for every row handed out
